@@ -327,7 +327,13 @@ func flushViolation(name string) {
 	violations++
 	mu.Unlock()
 	if f == nil {
-		f = &Failure{Check: name, Key: "harness", Msg: "test failed without a recorded failure (harness error or panic outside the judged region)"}
+		// not a verdict about the property: a panic in the generator/oracle code or a rapid
+		// health error. The test still fails, the driver maps that to exit 2 (infrastructure).
+		fmt.Fprintf(os.Stderr, "HARNESS-ERROR property=%s check=%s: test failed without a judged failure (see test output)\n", propertyID, name)
+		mu.Lock()
+		violations--
+		mu.Unlock()
+		return
 	}
 	doc := map[string]interface{}{
 		"property": propertyID,
